@@ -213,6 +213,62 @@ func C05(rep *ev.Reporter, tier string) {
 			}
 		}
 	}
+	// D: the built-in surface - every string method on every receiver x argument of small alphabets (constants,
+	// fields, computed arguments), slice/map functions, the built-in functions incl. the math family on float
+	// arguments; the reference is Go's function of the same name. Only calls the reference model types are kept.
+	nBefore := len(exprs)
+	{
+		recv := []string{`"abcabc"`, "F.S", `""`, `"Ünï ab"`, `" pad\t"`, `F.SArr[1]`, `F.Cat(F.S, "yx")`}
+		sarg := []string{`"a"`, `"bc"`, `""`, `"y"`, "F.S", `"x" + "y"`, `F.Cat("a", "b")`}
+		for _, r := range recv {
+			for _, m := range []string{"Len", "ToLower", "ToUpper", "Trim"} {
+				add(grl.E(r+"."+m+"()"), "builtin-str0")
+			}
+			for _, m := range []string{"Compare", "Contains", "Count", "HasPrefix", "HasSuffix", "Index", "LastIndex", "MatchString"} {
+				for _, a := range sarg {
+					add(grl.E(r+"."+m+"("+a+")"), "builtin-str1")
+				}
+			}
+			for _, a := range sarg {
+				add(grl.E(r+".Split("+a+").Len()"), "builtin-split")
+				for _, b := range sarg {
+					add(grl.E(r+".Replace("+a+", "+b+")"), "builtin-str2")
+				}
+			}
+			for _, n := range []string{"0", "1", "3", "F.I2", "F.I2 - 1"} {
+				add(grl.E(r+".Repeat("+n+")"), "builtin-repeat")
+			}
+			for _, p := range []string{`"^a"`, `"b+c"`, `"^$"`, `"^x"`, `"(a|y)x?"`, `"\\s"`} {
+				add(grl.E(r+".MatchString("+p+")"), "builtin-match")
+			}
+			add(grl.E(r+".In()"), "builtin-in")
+			add(grl.E(r+`.In("xy")`), "builtin-in")
+			add(grl.E(r+`.In("q", F.S, "abcabc")`), "builtin-in")
+			add(grl.E(r+`.In("", "q")`), "builtin-in")
+		}
+		for _, e := range []string{"F.Arr.Len()", "F.SArr.Len()", "F.M.Len()", `StringContains(F.S, "x")`, `StringContains("abc", F.S)`, `StringContains(F.S + "z", "yz")`,
+			"IsZero(F.I)", "IsZero(0)", "IsZero(0.0)", `IsZero("")`, "IsZero(F.S)", "IsZero(F.I - 5)", "IsNil(F.P)", "IsNil(F.PI)",
+			"Max(1.5)", "Max(1.5, 2.5)", "Max(2.5, 1.5, F.F)", "Min(1.5, F.F, 0.5)", "Max(F.F, F.F * 3.0)", "Min(-0.0, 0.0)", "Abs(-1.5)", "Abs(F.F - 2.0)",
+			`ContainsStr(F.SArr, "q")`, `ContainsStr(F.SArr, "z")`, `ContainsStr(F.S.Split("y"), "x")`,
+			"Pow10(2)", "Pow10(F.I2)", "Ldexp(0.5, 3)", "Jn(1, 2.5)", "Ilogb(8.5)", "IsNaN(F.F)", "IsInf(F.F, 1)", "Signbit(-2.5)", "Signbit(F.F)"} {
+			add(grl.E(e), "builtin-func")
+		}
+		fargs := []string{"0.5", "2.5", "F.F", "F.F + 0.25", "0.0", "-0.75", "100.0"}
+		for _, fn := range []string{"Acos", "Acosh", "Asin", "Asinh", "Atan", "Atanh", "Cbrt", "Ceil", "Cos", "Cosh", "Erf", "Erfc", "Erfcinv", "Erfinv", "Exp", "Exp2", "Expm1", "Floor",
+			"Gamma", "J0", "J1", "MathLog", "Log10", "Log1p", "Log2", "Logb", "Round", "RoundToEven", "Sin", "Sinh", "Sqrt", "Tan", "Tanh", "Trunc"} {
+			for _, a := range fargs {
+				add(grl.E(fn+"("+a+")"), "builtin-math1")
+			}
+		}
+		for _, fn := range []string{"Atan2", "Copysign", "Dim", "Hypot", "Mod", "Pow", "Remainder"} {
+			for _, a := range fargs {
+				for _, b := range fargs {
+					add(grl.E(fn+"("+a+", "+b+")"), "builtin-math2")
+				}
+			}
+		}
+	}
+	rep.Coverage["expressions_builtin_surface"] = len(exprs) - nBefore
 	if tier == "thorough" {
 		// C: depth 3 chains a o1 b o2 c o3 d (left-nested tree, minimal printing decides parentheses) on a small alphabet
 		small := []string{"6", "7", "F.I2", "2.5", "true"}
